@@ -25,15 +25,18 @@ theorem N3_DSIG_DF__DSIG_DDF (hc : c * c = 2) (h2 : (2:K) ≠ 0)
     (D : Nat → Nat → K) (F0 Δ : M3 K) (L : M3 K) (s : Nat → K) (hJ : F0.det ≠ 0) :
     upper (lamSig (Δ * F0) (M3.ofMandel c [s 0, s 1, s 2, s 3, s 4, s 5]) L (M3.ofMandel c (act (Gen.N3_DSIG_DF__DSIG_DDF_r c c3 fn D (tensv F0) (tensv (Δ * F0)) s) (M3.tens3 (L * (Δ * F0))))))
       = upper (lamSig (Δ * F0) (M3.ofMandel c [s 0, s 1, s 2, s 3, s 4, s 5]) L (M3.ofMandel c (act (rowsOf D i6 i9) (M3.tens3 (L * Δ))))) := by
-  have hc0 : c ≠ 0 := c_ne_zero hc h2
-  have hden0 : Gen.N3_DSIG_DF__DSIG_DDF_den0 c c3 fn D (tensv F0) (tensv (Δ * F0)) s = F0.det := by
-    c23_unfold <;> (try ring1)
-  have hd0 : Gen.N3_DSIG_DF__DSIG_DDF_den0 c c3 fn D (tensv F0) (tensv (Δ * F0)) s ≠ 0 := by rw [hden0]; exact hJ
-  c23_unfold at hden0 hd0
-  c23_unfold
-  (try rw [← hden0])
-  generalize_ne hd0 => e0 he0
-  (try (repeat' apply And.intro))
-  all_goals (first | rfl | (field_simp <;> first | (c23_ring hc) | ((try simp only [← he0]) <;> c23_field hc)))
+  have key : (act (Gen.N3_DSIG_DF__DSIG_DDF_r c c3 fn D (tensv F0) (tensv (Δ * F0)) s) (M3.tens3 (L * (Δ * F0))))
+      = (act (rowsOf D i6 i9) (M3.tens3 (L * Δ))) := by
+    have hc0 : c ≠ 0 := c_ne_zero hc h2
+    have hden0 : Gen.N3_DSIG_DF__DSIG_DDF_den0 c c3 fn D (tensv F0) (tensv (Δ * F0)) s = F0.det := by
+      c23_unfold <;> (try ring1)
+    have hd0 : Gen.N3_DSIG_DF__DSIG_DDF_den0 c c3 fn D (tensv F0) (tensv (Δ * F0)) s ≠ 0 := by rw [hden0]; exact hJ
+    c23_unfold at hden0 hd0
+    c23_unfold
+    (try rw [← hden0])
+    generalize_ne hd0 => e0 he0
+    (try (repeat' apply And.intro))
+    all_goals (first | rfl | (field_simp <;> first | (c23_ring hc) | ((try simp only [← he0]) <;> c23_field hc)))
+  rw [key]
 
 end TfelVerif.C23.PropsN3_DSIG_DF__DSIG_DDF
